@@ -288,6 +288,9 @@ func (b *VtteBox) Type() string {
 
 // DecodeVtte - box-specific decode
 func DecodeVtte(hdr BoxHeader, startPos uint64, r io.Reader) (Box, error) {
+	if _, err := readBoxBody(r, hdr); err != nil { // Should be empty, but must be consumed if not
+		return nil, err
+	}
 	return &VtteBox{}, nil
 }
 
